@@ -8,9 +8,9 @@ Request
  "db":{"decls":[{"name","ver","dir","table":[ACT…]}…],"tags":[[tag,name,ver]…]},
  "env":{"recs":{name:ver},"dirs":{name:str},"paths":{var:[str…]},"vars":{var:str}},
  "req":{"name","ver":VERREQ|null,"keep":bool,"max_depth":int,"inexact":bool,"tags":[str…]}}
-ACT    = {"g":"always"|"exact"|"inexact","a":"prepend","var","own":bool,"val","append":bool}
+ACT    = {"g":"always"|"exact"|"inexact","a":"prepend","var","vals":[{"own":bool,"val"}…],"append":bool}
        | {"g",…,"a":"set","var","own":bool,"val"} | {"g",…,"a":"alias","key","val"}
-       | {"g",…,"a":"dep","name","opt":bool,"just":bool,"ver":VERREQ|null,"vexpr":EXPR|null}
+       | {"g",…,"a":"dep","name","opt":bool,"just":bool,"ver":VERREQ|null,"vexpr":EXPR|null,"tags":[str…]}
 VERREQ = {"v":version} | {"e":EXPR}        EXPR = [[op,version]…]   (alternatives joined by ||)
 ```
 Strings of the environment are tagged here (`own (name,version) rel` when the string is the directory of a
@@ -54,7 +54,10 @@ def actOf (j : Json) : Except String (Guard × Act) := do
   let g ← guardOf (← (← j.getObjVal? "g").getStr?)
   let a ← (← j.getObjVal? "a").getStr?
   match a with
-  | "prepend" => pure (g, .prepend (← jstr j "var") (← valOf j) (← jbool j "append"))
+  | "prepend" =>
+    let vals ← (← jarr j "vals").mapM valOf
+    if vals.isEmpty then throw "envPrepend without a value"
+    pure (g, .prepend (← jstr j "var") vals (← jbool j "append"))
   | "set" => pure (g, .set (← jstr j "var") (← valOf j))
   | "alias" => pure (g, .alias (← jstr j "key") (← jstr j "val"))
   | "dep" =>
@@ -64,7 +67,7 @@ def actOf (j : Json) : Except String (Guard × Act) := do
     let vexpr ← match optField j "vexpr" with
       | some v => pure (some (← exprOf v))
       | none => pure none
-    pure (g, .dep (← jstr j "name") (← jbool j "opt") (← jbool j "just") ver vexpr)
+    pure (g, .dep (← jstr j "name") (← jbool j "opt") (← jbool j "just") ver vexpr (← jstrs j "tags"))
   | _ => throw s!"unknown action {a}"
 
 def declOf (j : Json) : Except String Decl := do
